@@ -129,6 +129,24 @@ func concScenarios(r *ev.Run, base lstore.Geometry) []mc.Scenario {
 		add("refresh-fm-get"+suffix, "A3 in an old block: FindMissing(A3,B5) || Get(A3) || Put(B5)", g, prefillOld,
 			[]concOp{fmT(A, B), getT(A, 0), putT(B, [][]byte{B.Content})}, finalSweep(A, B))
 	}
+	// (h) an upload whose source delivers more bytes than its digest states, next to a neighbour's upload.
+	for _, mem := range []bool{true, false} {
+		g := base
+		name := "oversized-neighbour-dev"
+		if mem {
+			g.InMemoryBlocks, g.SectorSize, g.SectorsPerBlock = true, 1, 1024
+			name = "oversized-neighbour-mem"
+		}
+		over := func(s *lstore.Store, m *model) {
+			err, _ := s.Put(A.Digest, lstore.PutSpec{Chunks: [][]byte{[]byte("aaaXXXXX")}, Gate: true})
+			vsched.Obs("PutOversized=%s", status.Code(err))
+			if err == nil {
+				failf("bad-upload-acknowledged", "upload delivering more bytes than the digest states was acknowledged")
+			}
+		}
+		add(name, "Put(A3 whose source delivers 8 bytes) || Put(B5) || Put(D4): neighbours allocated right behind the oversized upload", g, nil,
+			[]concOp{over, putT(B, [][]byte{B.Content}), putT(D, [][]byte{D.Content})}, finalSweep(A, B, D))
+	}
 	// (e) composite refresh+slice || Get(child)
 	{
 		g := base
